@@ -170,3 +170,10 @@ def run(ck, prog, ctx):
             ck.ob("ROLE", "parse/input", from_param and not bad and radix_ok,
                   "the number is parsed from %s%s" % ("a sub-slice of the input text" if from_param and not bad else "the input after `%s`: text that is not 'HP:' + a decimal number (e.g. with trailing white space) is accepted" % (bad[0] if bad else "?"), "" if radix_ok else " with a radix other than 10"),
                   where=tf.where(t.line))
+    # the integer conversions either keep the value or fail: no silent truncation of ids above u32::MAX
+    ck.rule("GUARD", "integer conversions into HpoTermId are exact or fail (DESIGN 3.5)")
+    from props.shared import check_exact_conversion
+    for ty in ("u16", "u64", "usize"):
+        cb = prog.body("<term::hpotermid::HpoTermId as std::convert::From<%s>>::from" % ty)
+        if cb is not None:
+            check_exact_conversion(ck, "GUARD", prog, cb, "a %s" % ty)
